@@ -1728,8 +1728,14 @@ def run(ctx):
             fn(ctx, binpath)
             ctx.log("stream %s done" % name)
     ctx.finish(level="proof", rule=PROP_RULE, trusted_base=TRUSTED, assumptions=ASSUME,
-               extra={"partial": ["C16_roundtrip_partial: round trip proved for tokens/terms; triples statements, group patterns and SELECT are checked by the tree stream only",
-                                  "extension grammars (RULE, REGISTER/RSP-QL, ML.PREDICT, MODEL / NEURAL RELATION): not modelled, totality exercised by the mutant stream only"]})
+               extra={"partial": [
+                   "C16_roundtrip_partial: the round trip `parse (print layout ast) = ast` is proved for every token class except exponent numbers, "
+                   "literals with @lang / ^^datatype and long strings, and at statement level only for the one-triple family "
+                   "(C16_roundtrip_triple / _group / _select: `SELECT * WHERE { s p o }` under any layout and keyword case); `;` `,` lists, FILTER / BIND / "
+                   "VALUES / GRAPH / UNION / sub-select, modifiers and the update forms are checked by the tree and follower streams only",
+                   "extension grammars (RULE, REGISTER/RSP-QL, ML.PREDICT, MODEL / NEURAL RELATION, legacy parse_where): not modelled, totality exercised by the mutant stream only",
+                   "fuel adequacy of the grammar model (parse_top never answers Fuel with the fuel of Run.v) is observed, not proved",
+                   "panic-freedom of the real code is a runtime fact tied to the model by the correspondence check only"]})
 
 
 def replay(ctx):
